@@ -102,7 +102,7 @@ def plan(tier):
 def describe(tier):
     P, _ = pipelines()
     return {
-        'rule': 'E1: circuits of F(n,k,A) x output policies. mode post: postcondition predicates of the five '
+        'rule': 'E1: circuits of F(n,k,A) x output policies. mode post (also on the same circuit with reversed storage order for the unary/chain families): postcondition predicates of the five '
         'passes on every result (RRG exact reachable set + idempotence, MergeDuplicate no equal signature, '
         'MergeEquivalent no equal reference table, MergeUnary negation/buffer statements on the all-negation / '
         f'all-buffer families). mode pipe: {len(P)} pipeline expressions (all a|b, all [a,b], 10 triples in 5 '
@@ -129,9 +129,12 @@ def _eq(net_a, net_b):
     return net_a.gates == net_b.gates and net_a.inputs == net_b.inputs and net_a.outputs == net_b.outputs
 
 
-def post_checks(n, gates, outs, acc, c, net, ref, fam):
+SCRAMBLE_FAMS = {'CHAIN', 'CHAINB', 'CHAIN1', 'CHAINB1', 'NEG', 'BUF'}
+
+
+def post_checks(n, gates, outs, acc, c, net, ref, fam, tag=None):
     _, s = pipelines()
-    case = lambda t: (lambda: {**space.spec_json(n, gates, outs), 'pass': t})  # noqa: E731
+    case = lambda t: (lambda: {**space.spec_json(n, gates, outs), 'pass': t, 'storage': tag})  # noqa: E731
     olabs = net.outputs
     nn = len(net.inputs)
     # --- RemoveRedundantGates ---------------------------------------------
@@ -282,6 +285,10 @@ def check_circuit(n, gates, acc, mode, pol, fam):
         net = refmodel.Net(net0.inputs, [labs[o] for o in outs], net0.gates)
         if mode in ('post', 'both'):
             post_checks(n, gates, outs, acc, c, net, ref, fam)
+            if fam in SCRAMBLE_FAMS or (n + k <= 3):
+                # same circuit, gate map stored in reverse (non-topological) order
+                c2 = space.scramble_storage(space.build(n, gates, outs))
+                post_checks(n, gates, outs, acc, c2, net, ref, fam, tag='scrambled')
         if mode in ('pipe', 'both'):
             pipe_checks(n, gates, outs, acc, c)
     acc.sample({**space.spec_json(n, gates, pols[-1]), 'mode': mode})
@@ -302,4 +309,6 @@ def replay(case, acc):
     if 'pipeline' in case:
         pipe_checks(n, gates, outs, acc, c, names={case['pipeline']})
     else:
-        post_checks(n, gates, outs, acc, c, net, net.tables(), None)
+        if case.get('storage') == 'scrambled':
+            space.scramble_storage(c)
+        post_checks(n, gates, outs, acc, c, net, net.tables(), None, tag=case.get('storage'))
